@@ -7,7 +7,7 @@
     "" vs <> vs macro-expanded names; #include_next chains; guarded / guarded-looking headers (text after #endif, #else branch,
     guard #undef'ed and re-included), #pragma once; -include, -D, -U in all orders.
 Oracle: `chibicc -E` tokens == `gcc -E` == `clang -E` tokens (markers make the diff name the group or file)."""
-import os, random, shutil
+import os, re, random, shutil
 from lib import core, pptok, cint
 
 LEVEL = 'exploration'
@@ -323,6 +323,48 @@ def compare(ctx, kind, feats, rg, rc, rx, files, script):
         ctx.violation('C10|%s|%s|tokens' % (kind, fkey), 'token %d: chibicc ...%s, gcc = clang ...%s' % (k, ' '.join(tx[max(0, k - 2):k + 3]), ' '.join(tg[max(0, k - 2):k + 3])), files=files, script=script)
 
 
+def system_shadow_cases(ctx, cc, work, rng):
+    """Headers that also exist in the system directories (stdarg.h, stddef.h, limits.h, stdio.h ...) placed in -I and
+    -idirafter directories: -I wins over the system copy, the system copy wins over -idirafter.  System headers differ
+    between compilers, so only the sequence of marker tokens is compared with gcc == clang."""
+    root = os.path.join(work, 'shadow')
+    os.makedirs(os.path.join(root, 'idir'))
+    os.makedirs(os.path.join(root, 'after'))
+    os.makedirs(os.path.join(root, 'after2'))
+    names = ['stdarg.h', 'stddef.h', 'stdbool.h', 'float.h', 'stdalign.h', 'stdnoreturn.h', 'only_here.h']      # leaf headers every compiler ships itself
+    for d in ('idir', 'after', 'after2'):
+        for nm in names:
+            if d == 'idir' and nm in ('float.h', 'stdalign.h', 'only_here.h'):
+                continue
+            open(os.path.join(root, d, nm), 'w').write('MARK_%s_%s\n' % (d, nm.replace('.', '_')))
+    k = 0
+    for trial in range(ctx.scale(24, 200)):
+        sel = rng.sample(names, rng.randrange(1, 5))
+        src = 'MARK_begin\n' + ''.join('#include <%s>\nMARK_after_include_%d\n' % (nm, i) for i, nm in enumerate(sel)) + 'MARK_end\n'
+        opts = rng.choice([['-idirafter', 'after'], ['-I', 'idir', '-idirafter', 'after'], ['-idirafter', 'after', '-I', 'idir'], ['-idirafter', 'after', '-idirafter', 'after2'],
+                           ['-idirafter', 'after2', '-Iidir', '-idirafter', 'after'], []])
+        if not opts and 'only_here.h' in sel:
+            continue
+        p = os.path.join(root, 'sh%d.c' % trial)
+        open(p, 'w').write(src)
+        outs = {}
+        for kind, cmd in (('gcc', ['gcc', '-E', '-P', '-w']), ('clang', ['clang', '-E', '-P', '-w']), ('chibicc', [cc, '-E'])):
+            rc, o, e = core.sh(cmd + opts + [p], cwd=root, env=core.SAN_ENV if kind == 'chibicc' else None, timeout=60)
+            outs[kind] = (rc, re.findall(r'\bMARK_\w+', o.decode('utf-8', 'replace')), e.decode('utf-8', 'replace'))
+        ctx.evaluations += 1
+        if outs['gcc'][0] != 0 or outs['clang'][0] != 0 or outs['gcc'][1] != outs['clang'][1]:
+            ctx.count('shadow_discarded')
+            continue
+        ctx.count('system_shadow_compared')
+        feat = '+'.join(o for o in opts if o.startswith('-')) or 'no-option'
+        ctx.saw('shadow:' + feat + ':' + '+'.join(sorted(sel)))
+        files = {'case.c': src}
+        if outs['chibicc'][0] != 0:
+            ctx.violation('C10|incl|system-shadow|%s|rejected' % feat, 'chibicc -E failed: ' + core.first_line(outs['chibicc'][2]), files=files)
+        elif outs['chibicc'][1] != outs['gcc'][1]:
+            ctx.violation('C10|incl|system-shadow|%s|markers' % feat, 'options %s, includes %s: chibicc saw %s, gcc = clang %s' % (opts, sel, outs['chibicc'][1], outs['gcc'][1]), files=files)
+
+
 def run(ctx):
     cc = ctx.build('san')
     work = ctx.tmpdir('c10')
@@ -330,6 +372,7 @@ def run(ctx):
     ctx.rule = ('cond case = random conditional nesting (depth <= 5) with unique markers per group; incl case = random directory tree + main file + option order; '
                 'chibicc -E tokens must equal gcc -E == clang -E; distinct = distinct feature sets')
     ctx.assumptions += ['#if expressions are generated only where C11 defines them in intmax_t/uintmax_t (Python model)', 'no fake system directories (chibicc has no -isystem)']
+    system_shadow_cases(ctx, cc, work, rng)
     n = ctx.scale(2500, 50000)
     cases = [cond_case(rng) for _ in range(n)]
     script = '$CHIBICC -E case.c > got.txt; gcc -E -P -w case.c > ref.txt; python3 -c "import sys; sys.path.insert(0, \'$VERIF\'); from lib import pptok; sys.exit(0 if pptok.spellings(open(\'got.txt\').read()) == pptok.spellings(open(\'ref.txt\').read()) else 1)"'
